@@ -159,7 +159,8 @@ def run_case(case, ctx):
             ctx.stat("float32_lanczos_root_non_finite(inconclusive, see C09 finding)")
             return
         if float(s0.abs().max()) != 0.0 or not torch.isfinite(s0).all():
-            ctx.fail("zero_noise_gives_zero", "value", detail="samples for all-zero base noise are not zero", **kw)
+            ctx.fail("zero_noise_gives_zero", "value", detail="samples for all-zero base noise are not zero",
+                     **dict(kw, tags=set(kw["tags"]) | ({"path:lanczos"} if rec.count("lanczos.end") > 0 else set())))
             return
         cols = []
         for j in range(tot):
